@@ -79,6 +79,8 @@ class Ops:
       return SV(sort, z3.Function('kwarg_true' if v else 'kwarg_false', sort.z3())())
     if v is NONEV and isinstance(sort, Opaque) and sort.nullable:
       return SV(sort, sort.literal(None))
+    if isinstance(v, FString) and isinstance(sort, Opaque):
+      return self.fresh(sort, 'fstring')   # formatted text (messages): an unconstrained string
     if isinstance(v, Lit):
       if isinstance(sort, Opaque):
         return SV(sort, sort.literal(v.py))
